@@ -1,0 +1,1 @@
+//! Hooks for property C38 (empty unless needed).
